@@ -45,7 +45,7 @@ OwnProps(g) ==
     [] g = "Tombstone" -> << R("formerType", "type"), R("deleted", "time") >>
 
 LinkProps == << R("id", "id"), R("type", "type"), R("name", "nlv"), R("rel", "iri"), R("mediaType", "mime"), R("height", "uint"),
-                R("width", "uint"), R("preview", "item"), R("href", "iri"), R("hrefLang", "lang") >>
+                R("width", "uint"), R("preview", "item"), R("href", "iri"), R("hreflang", "lang") >>
 
 ObjectGoTypes == {"Object", "Actor", "Activity", "IntransitiveActivity", "Question", "Collection", "CollectionPage",
                   "OrderedCollection", "OrderedCollectionPage", "Place", "Profile", "Relationship", "Tombstone"}
